@@ -382,9 +382,13 @@ func c08g2InmemList(c *eng.Ctx) {
 		return
 	}
 	succ := eng.SuccessReturns(f, 1)
-	rec := instrsOf(eng.Stores(f, `^i\.operations$`))
+	rec := c08InmemRecordSites(c, f)
 	if len(rec) == 0 {
-		c.Violation(f, "observation recorded", f.Pos(), "the transaction's List neither delegates to ListPage nor appends to i.operations: the listing is not verified at commit", nil)
+		if len(eng.Calls(f, `^inmem\.`)) > 0 {
+			c.Undecided(f, "observation recorded", f.Pos(), "no append to the transaction's operations in List or in a helper it calls on every path: moved? the rule cannot be evaluated")
+		} else {
+			c.Violation(f, "observation recorded", f.Pos(), "the transaction's List neither delegates to ListPage nor appends to i.operations: the listing is not verified at commit", nil)
+		}
 		return
 	}
 	blocked := append(c08g2FailEdges(f), eng.CondEdges(f, `^i\.writable$`, false)...)
@@ -960,7 +964,28 @@ func c08g2TrackPairing(c *eng.Ctx) {
 	}{{tracks, "registered", &nT}, {releases, "released", &nR}} {
 		for _, f := range sorted(pr.m) {
 			*pr.n += len(pr.m[f])
-			c.Cut(f, "start index "+pr.what+" with the tracker", pr.m[f], eng.Guard{Desc: "[writable flag of the same transaction]=true", Edges: writableEdges(f, true)}, nil)
+			site := "start index " + pr.what + " with the tracker"
+			g := eng.Guard{Desc: "[writable flag of the same transaction]=true", Edges: writableEdges(f, true)}
+			if len(g.Edges) == 0 && eng.TopFunc(f) == f {
+				// a helper that is not shown the flag: the decision is its callers' (one level)
+				var callers []eng.CallSite
+				if m, miss := c.P.StaticCallee(eng.FuncName(f)); len(miss) == 0 {
+					callers = append(c.P.FindCalls(m, nil), c.P.FuncValueUses(eng.FuncName(f))...)
+				}
+				if len(callers) == 0 {
+					c.Undecided(f, site, pr.m[f][0].Pos(), "the function does not test the transaction's writable flag and has no caller that could: the rule cannot be evaluated")
+					continue
+				}
+				for _, cs := range callers {
+					if cs.Call == nil {
+						c.Undecided(f, site, pr.m[f][0].Pos(), "used as a function value in "+eng.FuncName(cs.Fn)+": the rule cannot be evaluated")
+						continue
+					}
+					c.Cut(cs.Fn, site+" (through "+eng.FuncName(f)+")", []ssa.Instruction{cs.Call}, eng.Guard{Desc: g.Desc, Edges: writableEdges(cs.Fn, true)}, nil)
+				}
+				continue
+			}
+			c.Cut(f, site, pr.m[f], g, nil)
 		}
 	}
 	c.Floor(nil, "trackTransaction sites", nT, 1)
@@ -1017,4 +1042,39 @@ func c08g2TrackPairing(c *eng.Ctx) {
 			c.OK(f, site, arms[0].Pos(), "every return behind the finished check passes the release (or arms the deferred literal that performs it)")
 		}
 	}
+}
+
+// c08InmemRecordSites: where f records an observation of the in-memory
+// transaction: a store to the transaction's operations field (by field
+// identity), or a call - with f's own receiver - of a method of the package
+// every normal return of which lies behind such a store.
+func c08InmemRecordSites(c *eng.Ctx, f *ssa.Function) []ssa.Instruction {
+	fv := c.P.Field("inmem.InmemBackendTransaction.operations")
+	stores := func(g *ssa.Function) []ssa.Instruction {
+		return eng.Instrs(g, func(in ssa.Instruction) bool {
+			st, ok := in.(*ssa.Store)
+			if !ok {
+				return false
+			}
+			fa, ok := st.Addr.(*ssa.FieldAddr)
+			return ok && fv != nil && eng.FieldVar(fa) == fv
+		})
+	}
+	out := stores(f)
+	if len(f.Params) == 0 {
+		return out
+	}
+	for _, ci := range nfAllCalls(f) {
+		if _, plain := ci.(*ssa.Call); !plain {
+			continue
+		}
+		g := ci.Common().StaticCallee()
+		if g == nil || g == f || len(g.Blocks) == 0 || g.Pkg != f.Pkg || len(ci.Common().Args) == 0 || ci.Common().Args[0] != ssa.Value(f.Params[0]) {
+			continue
+		}
+		if gs := stores(g); len(gs) > 0 && eng.Reach(eng.Query{Fn: g, Barriers: gs, Target: nfIsNormalReturn}) == nil {
+			out = append(out, ci)
+		}
+	}
+	return out
 }
